@@ -61,6 +61,13 @@ class PartProcessor(PartHandler, Maintainable):
                  cycle_time = 0,
                  value = 0,
                  resources_for_processing = None):
+        # Set before super().__init__ because initialize(env) is called
+        # from there if the simulation is already in progress.
+        self._uptime = 0
+        self._last_restore = 0
+        self._time_in_use = 0
+        self._last_use_start = None
+
         super().__init__(name, upstream, cycle_time, value)
         self._is_shut_down = False
 
@@ -71,11 +78,6 @@ class PartProcessor(PartHandler, Maintainable):
         self._finish_processing_callbacks = []
         self._shutdown_callbacks = []
         self._restored_callbacks = []
-
-        self._uptime = 0
-        self._last_restore = 0
-        self._time_in_use = 0
-        self._last_use_start = None
 
     @property
     def uptime(self):
